@@ -6,10 +6,14 @@
    client's goroutines (main, acknowledger, opener, abort-on-stop) and of its environment; the environment
    events carry the outcome of every connect / send / ping / ack read and the moments of stop, close of the
    input channel and SIGUSR1; timers fire at any time.  All theorems quantify over ALL event lists:
-   every interleaving, every fault script, any length, any channel capacity. *)
+   every interleaving, every fault script, any length, any channel capacity.
+   [params] = channel capacity, max session age on/off, and [p_fix]: true = the code as it is now (an ACK with an
+   unknown id ends the session like a failed ACK read), false = the original code ('continue'; kept only for
+   C02_original_unknown_ack_stuck_refuted).  The safety theorems hold for both; the correspondence check runs
+   the model with p_fix = true. *)
 From SV Require Import Model.Common Model.Client Model.ClientAccept Spec.ClientSpec
      Proofs.ClientBase Proofs.ClientSafety Proofs.ClientHistory Proofs.ClientOrder Proofs.ClientTheorems
-     Proofs.ClientAcceptProofs Proofs.ClientLiveness Proofs.ClientCorollaries Proofs.ClientRecover
+     Proofs.ClientAcceptProofs Proofs.ClientLiveness Proofs.ClientCorollaries Proofs.ClientFixed Proofs.ClientRecover
      Model.AckParse Proofs.AckParseProofs.
 From Coq Require Import Permutation.
 
@@ -104,10 +108,8 @@ Print Assumptions C02_signals_once.
       request, the healthy continuation - connect ok, every send ok, every ack read returning the id of the chunk
       just sent - of length 5 + 6 * (leftovers + queued) gets every leftover (oldest first) and every queued chunk
       reported delivered and leaves the client holding nothing.
-      MISSING for the full liveness statement of the property ("while it keeps running and the upstream
-      eventually behaves, every unacknowledged chunk is retransmitted until acknowledged"): it does not hold
-      from the middle of a session - see C02_liveness_refuted - and fairness of the Go scheduler / real time
-      are not modelled. *)
+      MISSING for the full liveness statement of the property: this is one continuation from a session boundary;
+      4a/4b extend it to every reachable state, inevitability under fairness is not modelled (see 4a). *)
 Theorem C02_progress_partial :
   forall (P : params) (s : state),
   (1 <= p_cap P)%nat -> pc s = MStart -> stop_sig s = false ->
@@ -124,37 +126,87 @@ Theorem C02_progress_length :
 Proof. exact healthy_length. Qed.
 Print Assumptions C02_progress_length.
 
-(* 4a. Progress from ANYWHERE, PARTIAL.  With a max session age (maxDuration > 0): from every reachable state of a
-       client that was not asked to stop (inside the contract, distinct ids) there EXISTS a continuation in which it
-       keeps running and the upstream behaves (no stop / close / SIGUSR1 / new chunk, every connect, send and ping
-       succeeds, every ack read returns an id) after which every chunk ever taken from the queue - also one stuck
-       behind an unknown-id ACK - has been reported delivered exactly once, nothing is held or handed back and the
-       queue is empty.  The continuation is built by a scheduler with a lexicographic measure (main's distance to the
-       session boundary, then the acknowledger's backlog), then C02_progress_partial.
-       MISSING: that EVERY fair continuation does so (inevitability needs scheduler fairness and real time, which
-       the model does not have).  Without max session age the statement is false: C02_liveness_refuted. *)
+(* 4a. Progress from ANYWHERE, PARTIAL - for the repaired code, WITH OR WITHOUT a max session age (the hypothesis
+       p_maxage P = true of the previous version is gone).  From every reachable state of a client that was not asked
+       to stop (inside the contract, distinct ids) there EXISTS a continuation in which it keeps running and the
+       upstream behaves - no stop / close of the input / SIGUSR1 / new chunk, every connect succeeds, every ack read
+       returns an id, and a send, ping or ack read fails only on a connection whose Close() the client itself has
+       already executed ([healthy_from], relative to the connections closed in the run so far) - after which every
+       chunk ever taken from the queue, also one whose ACK arrived with an unknown id, has been reported delivered
+       exactly once, nothing is held or handed back and the queue is empty.  The continuation is built by a scheduler
+       with a lexicographic measure (main's distance to the session boundary / to an idle, drained acknowledger; the
+       acknowledger's backlog; the Close calls still pending), then C02_progress_partial or the rest of the queue.
+       MISSING, exactly: that EVERY fair continuation does so.  The model has no scheduler fairness and no real time
+       (timers are always-enabled events), so "eventually" can only be stated as existence (here) and as
+       non-existence of a trap state (4b); "oldest first" is C02_resend_order + C02_progress_partial. *)
 Theorem C02_progress_anywhere_partial :
   forall (P : params) (tr0 : list event) (s : state),
-  (1 <= p_cap P)%nat -> p_maxage P = true ->
+  (1 <= p_cap P)%nat -> p_fix P = true ->
   reach_by P tr0 s -> in_contract tr0 -> distinct_input tr0 -> stop_sig s = false -> in_closed s = false ->
-  exists tr s', run P s tr = Some s' /\ forallb healthy_cont tr = true /\
+  exists tr s', run P s tr = Some s' /\ healthy_from (closes_of tr0) tr = true /\
                 holdings s' = [] /\ inq s' = [] /\
                 Permutation (taken_of (tr0 ++ tr)) (consumed_of (tr0 ++ tr)) /\ handed_of (tr0 ++ tr) = [].
 Proof. exact recoverable_lemma. Qed.
 Print Assumptions C02_progress_anywhere_partial.
 
-(* 4b. The liveness gap (finding C02-wrong-id-ack-stuck): after an ACK carrying an unknown id the acknowledger goes
-       back to waiting for the NEXT chunk without having removed the chunk it was waiting for.  Without a max session
-       age there is a reachable state from which NO continuation in which the client keeps running and the
-       upstream behaves (no stop, no failure, no reconnect request; new chunks may arrive and are acknowledged)
-       ever confirms that chunk or transmits it again. *)
-Theorem C02_liveness_refuted :
-  forall P : params, (1 <= p_cap P)%nat -> p_maxage P = false ->
+(* 4b. No trap state (the negation of the liveness gap of the original code, 4d): whatever a running client and a
+       behaving upstream do - ANY healthy continuation tr1, of any length - the state reached still has a healthy
+       completion that gets every chunk ever taken reported delivered. *)
+Theorem C02_no_stuck_state :
+  forall (P : params) (tr0 : list event) (s : state) (tr1 : list event) (s1 : state),
+  (1 <= p_cap P)%nat -> p_fix P = true ->
+  reach_by P tr0 s -> in_contract tr0 -> distinct_input tr0 -> stop_sig s = false -> in_closed s = false ->
+  healthy_from (closes_of tr0) tr1 = true -> run P s tr1 = Some s1 ->
+  exists tr2 s2, run P s1 tr2 = Some s2 /\ healthy_from (closes_of (tr0 ++ tr1)) tr2 = true /\
+                 holdings s2 = [] /\ inq s2 = [] /\
+                 Permutation (taken_of (tr0 ++ tr1 ++ tr2)) (consumed_of (tr0 ++ tr1 ++ tr2)) /\
+                 handed_of (tr0 ++ tr1 ++ tr2) = [].
+Proof. exact never_stuck_lemma. Qed.
+Print Assumptions C02_no_stuck_state.
+
+(* 4c. The repair itself.  After a successful ack read that carries an id which is not in the pending map, the
+       acknowledger has ended (deferred snapshot of the pending map stored in session.unacked, ackerEnded signalled),
+       Close of that connection is requested (pending or already executed); and whatever happens next inside the
+       contract - every interleaving, every environment - up to the collectLeftovers that ends this session, no
+       further ACK is read and nothing is confirmed, and that collectLeftovers ends the session with every chunk of
+       the pending map in the leftovers handed to the next session (or to the leftover callback at stop). *)
+Theorem C02_unknown_ack_ends_session :
+  forall (P : params) (tr : list event) (s : state) (ss : sess) (k : nat) (i : chunk) (s1 : state),
+  p_fix P = true -> reach_by P tr s -> cur s = Some ss -> ~ In i (s_pending ss) ->
+  step P s (EAckRet k (AId i)) = Some s1 ->
+  (exists ss1, cur s1 = Some ss1 /\ s_id ss1 = k /\ s_apc ss1 = AEnded /\ s_ended ss1 = true /\
+               s_unacked ss1 = Some (s_pending ss) /\ s_creq ss1 = true /\
+               (In k (close_pend s1) \/ In (EClose k) tr)) /\
+  forall tr2 s2, run P s1 (tr2 ++ [ECollected]) = Some s2 -> ~ In ECollected tr2 -> in_contract tr2 ->
+    cur s2 = None /\ (forall c, In c (s_pending ss) -> In c (lo s2)) /\
+    (forall c, ~ In (EConsumed c) tr2) /\ (forall j a, ~ In (EAckRet j a) tr2).
+Proof. exact unknown_ack_ends_session_lemma. Qed.
+Print Assumptions C02_unknown_ack_ends_session.
+
+(* 4c'. In the repaired code the pending map holds exactly the chunk the acknowledger is waiting an ACK for. *)
+Theorem C02_pending_is_next_chunk :
+  forall (P : params) (s : state),
+  p_fix P = true -> reach P s -> forall ss : sess, cur s = Some ss ->
+  match s_apc ss with
+  | AIdle => s_pending ss = []
+  | AReading c | AAcked c => s_pending ss = [c]
+  | AEnded => True
+  end.
+Proof. exact pend_shape_reach. Qed.
+Print Assumptions C02_pending_is_next_chunk.
+
+(* 4d. Why the repair was needed (finding C02-wrong-id-ack-stuck, fixed): the ORIGINAL code (p_fix = false) went back
+       to waiting for the NEXT chunk after an ACK carrying an unknown id, without having removed the chunk it was
+       waiting for.  Without a max session age there is a reachable state from which NO continuation in which the
+       client keeps running and the upstream behaves (no stop, no failure, no reconnect request; new chunks may
+       arrive and are acknowledged) ever confirms that chunk or transmits it again. *)
+Theorem C02_original_unknown_ack_stuck_refuted :
+  forall P : params, (1 <= p_cap P)%nat -> p_maxage P = false -> p_fix P = false ->
   exists tr0 s c, reach_by P tr0 s /\ In c (taken_of tr0) /\ ~ In c (consumed_of tr0) /\
     forall tr s', Forall (healthy_ev c) tr -> run P s tr = Some s' ->
                   ~ In (EConsumed c) tr /\ (forall k r, ~ In (ESendRet k c r) tr) /\ In c (holdings s').
 Proof. exact liveness_gap_lemma. Qed.
-Print Assumptions C02_liveness_refuted.
+Print Assumptions C02_original_unknown_ack_stuck_refuted.
 
 (* 5. Soundness of the trace acceptor used by the correspondence check: an accepted list of observations is the
       observable projection of a run of the LTS (inside the contract when the search was restricted to it), and
@@ -196,7 +248,7 @@ Print Assumptions C02_ack_roundtrip.
 (* Non-vacuity: a concrete run with a failed send, a reconnect, a retransmission in id order, an id ACK and an
    empty-id ACK satisfies every hypothesis used above. *)
 Theorem C02_example :
-  exists s, reach_by (mkParams 2 false) example_run s /\ in_contract example_run /\ distinct_input example_run /\
+  exists s, reach_by (mkParams 2 false true) example_run s /\ in_contract example_run /\ distinct_input example_run /\
             finished_in example_run = true /\
             taken_of example_run = [1; 2]%N /\ consumed_of example_run = [1; 2]%N /\ handed_of example_run = [] /\
             sent_on 1 example_run = [1%N] /\ sent_on 2 example_run = [1; 2]%N /\
